@@ -230,16 +230,10 @@ def sufficiency(ctx, rule):
     return tr, fft, ratio_val, loop, loop_state
 
 
-def run(ctx):
+def rounded_capacity_compare(ctx, rule, orientation=True):
+    """Every ordering comparison against a capacity is made on a value rounded to the internal precision (an exact fit
+    must not be decided by the representation error of the sum, which differs between storage units)."""
     model = ctx.model
-    from . import unitspec as _us
-    _us.api_verified(ctx, 'C03.R2')
-    cont = model.cls('Container')
-    n_capacity = 0
-    # ------------------------------------------------------------------ R1 capacity gates
-    n_capacity = capacity_gates(ctx, 'C03.R1')
-    floor(ctx, 'functions/objects that can gain volume', n_capacity, 2)
-    # rounded-compare: every ordering comparison against a capacity
     n_cmp = 0
     for m in model.functions('pyplate/pyplate.py'):
         if m.parent is not None:
@@ -269,16 +263,31 @@ def run(ctx):
                         continue
                     n_cmp += 1
                     ok = is_rounded(other)
-                    ctx.ob('C03.R1', m, f.line, f"rounded-compare: `{show(other, 60)}` against a capacity", ok,
+                    ctx.ob(rule, m, f.line, f"rounded-compare: `{show(other, 60)}` against a capacity", ok,
                            fact=f"operand {'is' if ok else 'is not'} rounded to internal precision",
                            why='an unrounded floating-point sum is compared with a rounded capacity: exact fits are '
                                'refused by representation error', key='capacity compare on unrounded sum')
+                    if not orientation:
+                        continue
                     # orientation: raising side must be "value > capacity"
                     raising_when_over = (capside[0] is c.right)
-                    ctx.ob('C03.R1', m, f.line, f"capacity comparison refuses only above the capacity",
+                    ctx.ob(rule, m, f.line, f"capacity comparison refuses only above the capacity",
                            raising_when_over and c.op == 'le' and (f.exc or '') == 'ValueError', fact=str(c),
                            why='capacity test has the wrong orientation, strictness or exception type',
                            key='capacity compare orientation')
+    return n_cmp
+
+
+def run(ctx):
+    model = ctx.model
+    from . import unitspec as _us
+    _us.api_verified(ctx, 'C03.R2')
+    cont = model.cls('Container')
+    n_capacity = 0
+    # ------------------------------------------------------------------ R1 capacity gates
+    n_capacity = capacity_gates(ctx, 'C03.R1')
+    floor(ctx, 'functions/objects that can gain volume', n_capacity, 2)
+    n_cmp = rounded_capacity_compare(ctx, 'C03.R1')
     floor(ctx, 'capacity comparisons', n_cmp, 2)
 
     # ------------------------------------------------------------------ R2 sufficiency per unit branch
@@ -426,6 +435,10 @@ def run(ctx):
     # plate / slice operations go through the gated container operations for every addressed well
     from .c07 import forwarding
     forwarding(ctx, 'C03.R6')
+    # the gates of those operations decide on the object they are handed: a step refuses what the current state cannot
+    # supply only if bake hands over the current state and not the object given at declaration
+    from .c08 import current_operands
+    current_operands(ctx, 'C03.R6')
     ctx.ob('C03.R6', bake, bake.node.lineno, 'bake performs its steps through the public operations', len(ops) >= 8,
            fact=f"{len(ops)} operation calls", nontrivial=False, key='bake operation calls')
 
